@@ -120,9 +120,9 @@ struct Bounds {
 
 fn bounds(ctx: &Ctx) -> Bounds {
   if ctx.quick() {
-    Bounds { b: 4, nudge_k: 2, turns: TURNS_ALL.to_vec(), deep_nudge_k: 1, deep_turns: vec![0.0, -1.0, 3.0] }
+    Bounds { b: 5, nudge_k: 2, turns: TURNS_ALL.to_vec(), deep_nudge_k: 1, deep_turns: vec![0.0, -1.0, 3.0] }
   } else {
-    Bounds { b: 7, nudge_k: 2, turns: TURNS_ALL.to_vec(), deep_nudge_k: 2, deep_turns: TURNS_ALL.to_vec() }
+    Bounds { b: 8, nudge_k: 2, turns: TURNS_ALL.to_vec(), deep_nudge_k: 2, deep_turns: TURNS_ALL.to_vec() }
   }
 }
 
